@@ -857,4 +857,88 @@ V("c18-mni-copy-after-mutation", "C18", "ident.py",
 OK("c18-benign-docstring", "C18", "ident.py",
    "        # One user may have more than one NameID defined", "        # A user may own several NameIDs")
 
+# ------------------------------------------------------------------ C19
+V("c19-key-by-text", "C19", "cache.py",
+  "        cni = code(name_id)\n        (timestamp, info) = self._db[cni][entity_id]\n        info = info.copy()",
+  "        cni = name_id.text\n        (timestamp, info) = self._db[cni][entity_id]\n        info = info.copy()", rule="R1")
+V("c19-outside-access", "C19", "population.py",
+  "    def sources(self, name_id):", "    def dump(self):\n        return dict(self.cache._db)\n\n    def sources(self, name_id):",
+  rule="R1")
+V("c19-population-other-subject", "C19", "population.py",
+  "        return self.cache.get_identity(name_id, entities, check_not_on_or_after)",
+  "        return self.cache.get_identity(self.subjects()[0], entities, check_not_on_or_after)", rule="R1")
+V("c19-expiry-check-dropped", "C19", "cache.py",
+  "        if check_not_on_or_after and time_util.after(timestamp):\n            raise ToOld(\"past %s\" % str(timestamp))\n", "", rule="R2")
+V("c19-expiry-not-raised", "C19", "cache.py",
+  "            raise ToOld(\"past %s\" % str(timestamp))", "            logger.info(\"past %s\" % str(timestamp))", rule="R2")
+V("c19-expiry-uses-before", "C19", "cache.py",
+  "        if check_not_on_or_after and time_util.after(timestamp):", "        if check_not_on_or_after and time_util.before(timestamp):",
+  rule="R2")
+V("c19-tuple-order-swapped", "C19", "cache.py",
+  "        self._db[cni][entity_id] = (not_on_or_after, info)", "        self._db[cni][entity_id] = (info, not_on_or_after)", rule="R2")
+V("c19-after-not-negation", "C19", "time_util.py",
+  "        return not before(point)", "        return before(point)", rule="R2")
+V("c19-expired-merged", "C19", "cache.py",
+  "            except ToOld:\n                oldees.append(entity_id)\n                continue\n",
+  "            except ToOld:\n                oldees.append(entity_id)\n                info = self.get(name_id, entity_id, False)\n", rule="R3")
+V("c19-empty-merged", "C19", "cache.py",
+  "            if not info:\n                oldees.append(entity_id)\n                continue\n",
+  "            if not info:\n                oldees.append(entity_id)\n                info = {'ava': {}}\n", rule="R3")
+V("c19-default-no-expiry-check", "C19", "cache.py",
+  "    def get_identity(self, name_id, entities=None,\n                     check_not_on_or_after=True):",
+  "    def get_identity(self, name_id, entities=None,\n                     check_not_on_or_after=False):", rule="R3")
+V("c19-delete-one-source", "C19", "cache.py",
+  "        del self._db[code(name_id)]\n", "        self._db[code(name_id)].clear()\n", rule="R4")
+V("c19-reset-keeps-expiry", "C19", "cache.py",
+  "        self.set(name_id, entity_id, {}, 0)", "        self.set(name_id, entity_id, {}, 2 ** 31)", rule="R4")
+V("c19-sync-changes-behaviour", "C19", "cache.py",
+  "        self._db[cni][entity_id] = (not_on_or_after, info)\n        if self._sync:\n            try:",
+  "        self._db[cni][entity_id] = (not_on_or_after, info)\n        if self._sync:\n            self._db[cni] = dict(self._db[cni])\n            try:",
+  rule="R5")
+OK("c19-benign-comment", "C19", "cache.py",
+   "            # make friendly to (JSON) serialization", "            # keep the stored record JSON serialisable")
+
+# ------------------------------------------------------------------ C20
+V("c20-ok-substring", "C20", "sigver.py",
+  "        if line == 'OK':\n            return True", "        if 'OK' in line:\n            return True", rule="R2")
+V("c20-ok-startswith", "C20", "sigver.py",
+  "        if line == 'OK':\n            return True", "        if line.startswith('OK'):\n            return True", rule="R2")
+V("c20-no-ok-returns-false-then-true", "C20", "sigver.py",
+  "        elif line == 'FAIL':\n            raise XmlsecError(output)\n    raise XmlsecError(output)",
+  "        elif line == 'FAIL':\n            raise XmlsecError(output)\n    return 'no verdict'", rule="R2")
+V("c20-whole-output-ok", "C20", "sigver.py",
+  "    for line in output.splitlines():\n        if line == 'OK':", "    for line in [output.strip()[-2:]]:\n        if line == 'OK':",
+  rule="R2")
+V("c20-signal-ignored", "C20", "sigver.py",
+  "            if pof.returncode is not None and pof.returncode < 0:", "            if False and pof.returncode < 0:", rule="R1")
+V("c20-validate-default-off", "C20", "sigver.py",
+  "    def _run_xmlsec(self, com_list, extra_args, validate_output=True, exception=XmlsecError):",
+  "    def _run_xmlsec(self, com_list, extra_args, validate_output=False, exception=XmlsecError):", rule="R1")
+V("c20-verify-without-validation", "C20", "sigver.py",
+  "            [fil],\n            exception=SignatureError)\n\n        return parse_xmlsec_output(stderr)",
+  "            [fil],\n            validate_output=False,\n            exception=SignatureError)\n\n        return parse_xmlsec_output(stderr)",
+  rule="R1")
+V("c20-verdict-always-true", "C20", "sigver.py",
+  "            exception=SignatureError)\n\n        return parse_xmlsec_output(stderr)",
+  "            exception=SignatureError)\n\n        return True", rule="R3")
+V("c20-verdict-from-stdout", "C20", "sigver.py",
+  "        (_stdout, stderr, _output) = self._run_xmlsec(", "        (stderr, _stderr, _output) = self._run_xmlsec(", rule="R3")
+V("c20-xmlsec-error-is-success", "C20", "sigver.py",
+  "            except XmlsecError as exc:\n                logger.error('check_sig: %s', exc)\n                pass\n",
+  "            except XmlsecError as exc:\n                logger.error('check_sig: %s', exc)\n                verified = True\n                break\n",
+  rule="R4")
+V("c20-oserror-swallowed", "C20", "sigver.py",
+  "            except Exception as exc:\n                logger.error('check_sig: %s', exc)\n                raise\n",
+  "            except Exception as exc:\n                logger.error('check_sig: %s', exc)\n                verified = True\n",
+  rule="R4")
+V("c20-sign-returns-unsigned", "C20", "sigver.py",
+  "            logger.error('Signing operation failed :\\nstdout : %s\\nstderr : %s', stdout, stderr)\n            raise SigverError(stderr)",
+  "            logger.error('Signing operation failed :\\nstdout : %s\\nstderr : %s', stdout, stderr)\n            return statement",
+  rule="R5")
+V("c20-sign-empty-ok", "C20", "sigver.py",
+  "            if stdout == '':\n                if signed_statement:\n                    return signed_statement.decode('utf-8')",
+  "            if stdout == '':\n                return signed_statement.decode('utf-8')", rule="R5")
+OK("c20-benign-ok-compare-swapped", "C20", "sigver.py",
+   "        if line == 'OK':\n            return True", "        if 'OK' == line:\n            return True")
+
 VARIANTS[:] = [v for v in VARIANTS if v]
